@@ -546,3 +546,87 @@ class WOFF2HmtxTransformRoundTrip(Contract):
         return And(Not(And(need_long, need_mono)), eq(b[0], flags), eq(len(b), size), same)
 
     ensures = [prop("transform-applies-exactly-when-allowed-and-reconstructs-the-metrics", lambda a, old, r: WOFF2HmtxTransformRoundTrip._post(a, r))]
+
+
+# -- the glyf-transform bounding-box bitmap and stream (C04) ---------------------------------------
+
+@contract
+class WOFF2BBoxCodec(Contract):
+    """WOFF2GlyfTable._encodeBBox then _decodeBBox for glyph ids 0, 7, 8 and 13: a composite always
+    stores its box; a simple glyph stores it exactly when it differs from the box computed from
+    its points (then the decoder recomputes it); the bit of glyph g is bit 7 - g % 8 of byte
+    g // 8 and no other bit changes; a stored box is four int16 in the order xMin, yMin, xMax, yMax;
+    the decoded glyph has the same box.  Stored and computed boxes symbolic."""
+    module = "fontTools.ttLib.woff2"
+    qualname = "WOFF2GlyfTable._decodeBBox"
+    props = ("C04", "C15")
+    variants = tuple((gid, comp) for gid in (0, 7, 8, 13) for comp in (False, True))
+    level = "PF"
+    assumptions = ("calcIntBounds / Glyph.recalcBounds are stubs returning one symbolic box (own contracts: CalcBounds, GlyphCompileHeaderBox)",)
+
+    def rebind(self):
+        from pyvc.models import sstruct_shadow
+        return dict(std("struct", "len", "bytes", "bytearray", "array", "int"), sstruct=sstruct_shadow(), calcIntBounds=lambda coords: self._calc)
+
+    def args(self, S, variant):
+        gid, comp = variant
+        box = [S.int(n, -32768, 32767) for n in ("xMin", "yMin", "xMax", "yMax")]
+        self._calc = tuple(S.int("calc_" + n, -32768, 32767) for n in ("xMin", "yMin", "xMax", "yMax"))
+        calc = self._calc
+
+        class _G:
+            def __init__(self):
+                self.recalculated = False
+
+            def isComposite(self):
+                return comp
+
+            def recalcBounds(self, glyfTable):
+                self.recalculated = True
+                self.xMin, self.yMin, self.xMax, self.yMax = calc
+        g = _G()
+        g.numberOfContours = -1 if comp else 1
+        g.xMin, g.yMin, g.xMax, g.yMax = box
+        g.coordinates = "coords"
+        enc = self.mod.WOFF2GlyfTable.__new__(self.mod.WOFF2GlyfTable)
+        enc.bboxBitmap = self.mod.bytearray([0x24, 0x42]) if hasattr(self.mod, "bytearray") else bytearray([0x24, 0x42])
+        enc.bboxStream = b"PREVIOUS"
+        return dict(self=enc, glyphID=gid, glyph=g, _box=box, _calc=calc, _comp=comp, _gid=gid, _G=_G)
+
+    def call(self, f, a):
+        cls = type(a.self)
+        cls._encodeBBox(a.self, a.glyphID, a.glyph)
+        bitmap, stream = list(a.self.bboxBitmap), a.self.bboxStream
+        dec = cls.__new__(cls)
+        dec.bboxBitmap, dec.bboxStream = a.self.bboxBitmap, stream[8:]
+        back = a._G()
+        back.numberOfContours = a.glyph.numberOfContours
+        f(dec, a.glyphID, back)
+        return bitmap, stream, back, dec.bboxStream
+
+    @staticmethod
+    def _post(a, r):
+        bitmap, stream, back, rest = r
+        differs = Or(*[Not(eq(x, y)) for x, y in zip(a._box, a._calc)])
+        stored = True if a._comp else differs
+        byte, mask = a._gid >> 3, 0x80 >> (a._gid & 7)
+        old = [0x24, 0x42]
+        cs = []
+        for i, b in enumerate(bitmap):
+            want = old[i] | mask if i == byte else old[i]
+            cs.append(eq(b, Ite(stored, want, old[i])) if i == byte else eq(b, old[i]))
+        sb = _items(stream)
+        n_extra = len(sb) - 8
+        cs.append(eq(n_extra, Ite(stored, 8, 0)))
+        if n_extra == 8:
+            for k, v in enumerate(a._box):
+                w = sb[8 + 2 * k] * 256 + sb[9 + 2 * k]
+                cs.append(eq(Ite(w >= 32768, w - 65536, w), v))
+            cs.append(not back.recalculated and len(_items(rest)) == 0)
+            cs += [eq(getattr(back, nm), v) for nm, v in zip(("xMin", "yMin", "xMax", "yMax"), a._box)]
+        else:
+            cs.append(back.recalculated)
+            cs += [eq(getattr(back, nm), v) for nm, v in zip(("xMin", "yMin", "xMax", "yMax"), a._box)]      # equal to the computed one on this path
+        return And(*cs)
+
+    ensures = [prop("box-stored-exactly-when-needed-and-read-back", lambda a, old, r: WOFF2BBoxCodec._post(a, r))]
